@@ -1,7 +1,8 @@
 (* C13: the extracted compound-file model (coq/theories/Cfb.v).
    cfb_write <ss> <storages> <streams> <layout> [<parents> [<links>]]
-        -> <hex of the file>|<valid 0/1>|<known class or ->|<fuel>|<legal tree 0/1>|<names unique 0/1>
+        -> <hex of the file>|<valid 0/1>|-|<fuel>|<legal tree 0/1>|<names unique 0/1>|<linked tree 0/1>|<flat root 0/1>
                                                                               (encoder E; model only)
+      (third field: the known class of the container; none is left since the fix of G8)
       parents : '-' or ','-separated decimals, one per storage then per stream (0 = root storage,
                 j = the j-th storage)
       links   : '-' or '/'-separated  left,right,child  triples: root entry, storages, streams
@@ -11,10 +12,15 @@
                 id lists are ','-separated decimals ('' = empty), chains are '/'-separated id lists
    cfb <hex of a file> <fuel> <ops>
         -> new=<ok | err:<class> | panic | fuel>[;<answer per op>…]          (model M; both sides)
-      ops: ';'-separated  h:<name hex> (has_directory) | g:<name hex> (get_stream) | n (names)
-           | w (model only: the stream Xls::parse_workbook reads, get_stream("Workbook") or else "Book")
-      answers: 0/1 | ok:<hex> / err:<class> / panic / fuel | n:<name hex>,…
-      (processing stops at a panic and at an error other than notfound)  *)
+      ops: ';'-separated; a <path> is '/'-separated <name hex> ('-' = the empty name)
+           h:<name hex> (has_directory: an entry of the root storage) | g:<path> (get_stream)
+           | p:<path> (find(path).is_some()) | c:<id> (children of entry id) | n (names)
+           | w (model only: the stream Xls::parse_workbook reads, the root's "Workbook" or else "Book")
+           | s:<path> (model only, specification side: needs the container, see cfb_spec)
+      answers: 0/1 | ok:<hex> / err:<class> / panic / fuel | 0/1 | c:<id>,… | n:<name hex>,…
+      (processing stops at a panic and at an error other than notfound)
+   cfb_spec <ss> <storages> <streams> <parents> <paths>
+        -> per ';'-separated path: ok:<hex> (the stream at that path) | storage | none      (spec S) *)
 open Conv
 open Prelude
 open Cfb
@@ -76,12 +82,29 @@ let run_write (args : string list) : string =
     let l = parse_layout lay links in
     let file = cfb_write c l in
     let valid = valid_layoutb c l in
-    let known = match known_C13 c l with
-      | Some k when int_of_n k = 2 -> "shadowed_workbook"
-      | Some _ -> "other" | None -> "-" in
     let b x = if x then 1 else 0 in
-    Printf.sprintf "%s|%d|%s|%d|%d|%d" (hex_of_bytes_fast file) (b valid) known
-      (int_of_nat (fuel_for l)) (b (legal_treeb c l)) (b (names_uniqueb c))
+    Printf.sprintf "%s|%d|-|%d|%d|%d|%d|%d" (hex_of_bytes_fast file) (b valid)
+      (int_of_nat (fuel_for l)) (b (legal_treeb c l)) (b (names_uniqueb c)) (b (linked_treeb c l)) (b (flat_rootb c l))
+  | _ -> failwith "bad args"
+
+let path_of (s : string) : BinNums.coq_N list list =
+  if s = "" then [] else List.map name_of (String.split_on_char '/' s)
+
+let run_spec (args : string list) : string =
+  match args with
+  | ss :: storages :: streams :: parents :: paths :: _ ->
+    let c = parse_container ss storages streams parents in
+    let ns = List.length c.c_storages in
+    String.concat ";" (List.map (fun p ->
+        let path = path_of p in
+        match spec_path c path with
+        | Some b -> "ok:" ^ hex_of_bytes_fast b
+        | None ->
+          (match resolve c (n_of_int 0) path with
+           | Some o when int_of_n o >= 1 && int_of_n o <= ns -> "storage"
+           | Some o when int_of_n o = 0 -> "root"
+           | _ -> "none"))
+        (if paths = "-" || paths = "" then [] else String.split_on_char ';' paths))
   | _ -> failwith "bad args"
 
 let run_read (args : string list) : string =
@@ -107,11 +130,14 @@ let run_read (args : string list) : string =
               | Panic -> "panic"
               | OutOfFuel -> "fuel")
            else
-             let name = name_of (String.sub op 2 (String.length op - 2)) in
+             let arg = String.sub op 2 (String.length op - 2) in
              match op.[0] with
-             | 'h' -> if has_directory !c name then "1" else "0"
+             | 'h' -> if has_directory !c (name_of arg) then "1" else "0"
+             | 'p' -> (match find_entry (directories !c) (path_of arg) with Some _ -> "1" | None -> "0")
+             | 'c' -> "c:" ^ String.concat "," (List.map (fun i -> string_of_int (int_of_n i))
+                                                   (children (directories !c) (n_of_string arg)))
              | 'g' ->
-               (match get_stream !c name !r with
+               (match get_stream !c (path_of arg) !r with
                 | Ok ((b, c1), r1) -> c := c1; r := r1; "ok:" ^ hex_of_bytes_fast b
                 | Err e ->
                   (* an I/O error may leave the sector cache grown in the real code: stop *)
@@ -124,4 +150,5 @@ let run_read (args : string list) : string =
 
 let () = Registry.register "cfb_write" run_write
 let () = Registry.register "cfb" run_read
+let () = Registry.register "cfb_spec" run_spec
 let init () = ()
